@@ -117,13 +117,18 @@ Backed == \A i \in 1..Len(obs.liab) : BLeq(obs.liab[i].owed, Get(cbal, <<obs.lia
 \* may instead have been consumed by a registration of the same owner. (The time compared is the confirming momentum's,
 \* which is not earlier than the one the contract executed against: the rule is sound, at most one momentum lenient.)
 PaidTo(r, a) == \E i \in 1..Len(obs.pays) : LET p == obs.pays[i] IN p.c = r.c /\ p.to = a /\ p.t = r.t /\ BLeq(r.amt, p.amt)
+\* pillar and sentinel collateral: locked for r.lock seconds, revocable for r.win seconds, periodically from the registration on;
+\* the time that counts is the one the paying receive executed against (p.ctx)
+PaidInWindow(r, a) == \E i \in 1..Len(obs.pays) : LET p == obs.pays[i] IN
+                         /\ p.c = r.c /\ p.to = a /\ p.t = r.t /\ BLeq(r.amt, p.amt)
+                         /\ (r.win = 0 \/ p.ctx = 0 \/ ((p.ctx - r.reg) % (r.lock + r.win)) >= r.lock)
 ReleaseOK(r) ==
   CASE r.kind = "fusion" -> PaidTo(r, r.owner) /\ obs.h >= r.unlock
     [] r.kind \in {"stake", "liquidity-stake"} -> PaidTo(r, r.owner) /\ obs.time >= r.unlock
     [] r.kind = "htlc" -> PaidTo(r, r.alt) \/ (PaidTo(r, r.owner) /\ obs.time >= r.unlock)
     [] r.kind = "qsr-deposit" -> PaidTo(r, r.owner)
                                   \/ \E i \in 1..Len(obs.app) : obs.app[i].owner = r.owner /\ obs.app[i].kind \in {"pillar", "sentinel-qsr"}
-    [] OTHER -> PaidTo(r, r.owner)                      \* pillar and sentinel collateral
+    [] OTHER -> PaidInWindow(r, r.owner)                \* pillar and sentinel collateral
 ReleasedRight == \A i \in 1..Len(obs.rel) : ReleaseOK(obs.rel[i])
 
 HighWater == TLCSet(1, IF TLCGet(1) > l THEN TLCGet(1) ELSE l)
